@@ -122,7 +122,10 @@ def ref_accept(case, truth, st_):
                 if not refund_time_ok:
                     return False
                 want = truth['fpk']
-            if len(key) != 32 or shake(key, 20) != shake(want, 20):
+            # the layout-2 locks commit to the keys by a truncated SHAKE-256 hash: 20 bytes in the sha256 lock, hash_size bytes
+            # in the shake256 lock - "the receiver key" is, for the lock, any key with that hash (1 in 256 for hash_size 1)
+            ks = 20 if lk.endswith('sha256') else case['hash_size']
+            if len(key) != 32 or shake(key, ks) != shake(want, ks):
                 return False
             return valid_sig(sig, key, allowed, fields)
         if len(st_) != 2:
